@@ -4,6 +4,7 @@ import (
 	"flag"
 	"os"
 	"path/filepath"
+	"reflect"
 	"sort"
 	"strconv"
 	"strings"
@@ -67,7 +68,24 @@ func c09TablesCmd(args []string) {
 				proD = append(proD, dec(g.PRO[s][:]))
 				deadD = append(deadD, dec(g.DEAD[s][:]))
 			}
-			emit(jobj{"k": "table", "file": fn, "yml": yml, "nrentw": l.NRENTW, "nrkom": g.NRKOM, "dauerkult": g.DAUERKULT,
+			lv := reflect.ValueOf(l)
+			kc := lv.FieldByName("kc")
+			kcs := []string{}
+			for i := 0; i < l.NRENTW && i < kc.Len(); i++ {
+				kcs = append(kcs, hx(kc.Index(i).Float()))
+			}
+			n := l.NRENTW
+			if n > 10 {
+				n = 10
+			}
+			params := jobj{"MAXAMAX": hx(g.MAXAMAX), "MINTMP": hx(g.MINTMP), "WUMAXPF": hx(g.WUMAXPF), "VELOC": hx(g.VELOC), "NGEFKT": g.NGEFKT,
+				"RGA": hx(g.RGA), "RGB": hx(g.RGB), "SubOrgan": g.SubOrgan, "YORGAN": g.YORGAN, "YIFAK": hx(g.YIFAK), "NRKOM": g.NRKOM, "NRENTW": l.NRENTW,
+				"DAUERKULT": g.DAUERKULT, "LEGUM": g.LEGUM, "WORG": hxs(g.WORG[:]), "MAIRT": hxs(g.MAIRT[:]), "GEHOB": hx(g.GEHOB), "WUGEH": hx(g.WUGEH),
+				"TSUM": hxs(g.TSUM[:n]), "BAS": hxs(g.BAS[:n]), "VSCHWELL": hxs(g.VSCHWELL[:n]), "DAYL": hxs(g.DAYL[:n]), "DLBAS": hxs(g.DLBAS[:n]),
+				"DRYSWELL": hxs(g.DRYSWELL[:n]), "LUKRIT": hxs(g.LUKRIT[:n]), "LAIFKT": hxs(g.LAIFKT[:n]), "WGMAX": hxs(g.WGMAX[:n]),
+				"AboveGroundOrgans": l.AboveGroundOrgans, "kc": kcs, "kcini": hx(lv.FieldByName("kcini").Float()),
+				"temptyp": lv.FieldByName("temptyp").Int(), "tendsum": hx(lv.FieldByName("tendsum").Float())}
+			emit(jobj{"k": "table", "file": fn, "yml": yml, "nrentw": l.NRENTW, "nrkom": g.NRKOM, "dauerkult": g.DAUERKULT, "params": params,
 				"pro": pro, "dead": dead, "pro_dec": proD, "dead_dec": deadD})
 		}()
 	}
